@@ -691,9 +691,18 @@ func gen(r *Rng, tier string, emit func(string)) {
 		t4 := b.t
 		t4.Length++
 		line(ser(t4))
-		t4 = b.t
-		t4.Type = 1
-		line(ser(t4))
+		// the length prefix is covered by neither the inner hash nor a signature: every other value of it
+		// (zero and the "unset" looking ones first) must be refused, or the txid is malleable
+		for _, l := range []uint32{0, 1, b.t.Length - 1, b.t.Length + 4, b.t.Length << 8, 1 << 31, 1<<32 - 1} {
+			t4 = b.t
+			t4.Length = l
+			line(ser(t4))
+		}
+		for _, ty := range []uint8{1, 2, 0x80, 0xff} {
+			t4 = b.t
+			t4.Type = ty
+			line(ser(t4))
+		}
 	}
 	// ---- 4. signed blocks against a real follower node
 	ncase := 1
